@@ -19,4 +19,18 @@ PROPS = {
         "assumptions": ["read faults other than ENOENT on the key file are outside the model",
                         "KeyFile.generate_key() (explicit regeneration by the user) is not in the operation alphabet"],
     },
+    "C08": {
+        "streams": ["crypto"],
+        "witnesses": [],
+        "rule": ("deterministic matrix (2 keys x 4 methods x 12 boundary plaintext lengths) plus seeded random cases: "
+                 "encryptions under a recorded IV and decryptions of valid / short / misaligned / bad-padding / "
+                 "foreign-key / garbage values; non-trivial = a real method (not the bogus one); distinct = distinct case"),
+        "trusted_base": [KERNEL, "Print Assumptions: closed under the global context (no axioms)", TIE, HARNESS,
+                         "modelled, not verified: the AES-256 block function (cryptography's primitive) enters the theorems as "
+                         "hypotheses D(E b) = b and |E b| = 16 and the correspondence as a per-case table of single-block "
+                         "results obtained from AES-ECB directly; os.urandom as a recorded value"],
+        "assumptions": ["'a different key never yields the plaintext' is a cryptographic statement: sampled (foreign-key cases), not proved",
+                        "AES block primitive inverse law is assumed (hypothesis of C08_cbc_dec_enc / C08_aes_roundtrip)",
+                        "SecureField.to_python shape checks are covered with the fields stream (C05/C03), not here"],
+    },
 }
